@@ -165,6 +165,10 @@ func (goh *GoatOverHttp) ServeHTTP(w http.ResponseWriter, r *http.Request) {
 	case <-conn.done:
 		log.Error().Msgf("GoatOverHttp: connection to %s closed", source)
 		http.Error(w, "connection closed", http.StatusServiceUnavailable)
+	case <-r.Context().Done():
+		// the client went away (or the server is shutting down) before anybody read the Rpc
+		log.Error().Msgf("GoatOverHttp: request from %s cancelled", source)
+		http.Error(w, "request cancelled", http.StatusServiceUnavailable)
 	}
 }
 
